@@ -102,7 +102,7 @@ func New(tape *Tape) *Sim {
 		MaxSteps:  200000,
 		MaxIdle:   time.Hour,
 		Deadline:  24 * 365 * time.Hour,
-		ringMax:   400,
+		ringMax:   6000,
 		Faults:    map[string]int{},
 		Probes:    map[string]int{},
 		Hash:      1469598103934665603,
